@@ -233,6 +233,37 @@ def mixed_unit_operands(ctx, L):
                         before = after
 
 
+def unit_text_lookalikes(ctx, L, db):
+    """A derived amount whose unit *text* equals a table unit of another dimension ((m/s)**2 prints 'm/s2', the
+    acceleration unit; (N/m)**2 prints 'N/m2', the pressure unit): ordering it against, or adding it to, an amount in
+    that table unit compares two different dimensions and must fail like any other such pair."""
+    from barril.units import Scalar
+
+    units = set(db.unit_to_unit_info)
+    done = 0
+    for u in sorted(units):
+        if len(u) < 2 or u[-1] not in "23456" or u[:-1] not in units or "/" not in u[:-1] and "." not in u[:-1]:
+            continue
+        v, k = u[:-1], int(u[-1])
+        try:
+            d = Scalar(3.0, v) ** k
+            t = Scalar(2.0, u)
+        except Exception:
+            continue
+        if d.GetUnit() != u or _dimension(d) == _dimension(t):
+            continue
+        done += 1
+        case = {"table_unit": u, "derived_from": "%s ** %d" % (v, k), "derived_unit_text": d.GetUnit()}
+        ctx.nt(("unit text look-alike", u))
+        for nme, op in ORDER:
+            L.must_raise("look-alike: derived %s table unit" % nme, lambda: op(d, t), case, (d, t))
+            L.must_raise("look-alike: table unit %s derived" % nme, lambda: op(t, d), case, (d, t))
+        for nme, op in ADDSUB:
+            L.must_raise("look-alike: derived %s table unit" % nme, lambda: op(d, t), case, (d, t))
+            L.must_raise("look-alike: table unit %s derived" % nme, lambda: op(t, d), case, (d, t))
+    ctx.count("derived amounts whose unit text equals a table unit of another dimension", done)
+
+
 def override_then_create(ctx, L):
     """'at any point inside an arbitrary sequence of other operations' - here the sequence contains a registration: values
     are created under a category, the category is re-registered (override) for another quantity type, and the very
@@ -467,6 +498,7 @@ def run(ctx):
         arithmetic_derived(ctx, L, T, B, r, 400 if ctx.tier == "quick" else 6000)
         if ctx.shard == 0:
             mixed_unit_operands(ctx, L)
+            unit_text_lookalikes(ctx, L, db)
     if ctx.shard == 0:
         override_then_create(ctx, L)
     differential(ctx, r, 25 if ctx.tier == "quick" else 400, 70)
